@@ -79,6 +79,13 @@ static void gfdef_run(Ctx& c) {
             cd ref = lehmann_G(cR[(size_t)i], cdR[(size_t)j], ed.E, wref, z);
             if (std::abs(ref) > 1e-9) any_nonzero = true;
             double t = tol.at(z, ref);
+            {   // the reference sum has the same two rounding sources as the library's (see TolG::at), in its own eigenbasis - where a component that vanishes
+                // identically in the library's basis may be a sum of cancelling terms
+                const CMat& A = cR[(size_t)i]; const CMat& B = cdR[(size_t)j]; double s1r = 0; const long d = ed.E.size();
+                for (long a = 0; a < d; ++a) for (long b = 0; b < d; ++b) { double x = std::abs(A(a, b) * B(b, a)); if (x > 0) s1r += x * (wref(a) + wref(b)) / std::abs(z - (ed.E(b) - ed.E(a))); }
+                const double noise = 32 * 2.220446049250313e-16 * (1 + (ed.E.maxCoeff() - ed.E.minCoeff()));
+                t += s1r * (4 * beta * noise + 8 * 2.220446049250313e-16 * std::sqrt(double(d) * double(d)));
+            }
             if (use_expm && std::abs(n) <= 50) {
                 cd ref3 = expm_G(ed, cF[(size_t)i], cdF[(size_t)j], beta, w);
                 double otol = 1e-9 * (1 + std::abs(ref)) * (1 + beta * ed.hnorm * 0.01);
